@@ -12,7 +12,7 @@ conversion, i32 range), all adjacent-token pairs, stream bodies.
 import json
 import os
 import facts as F
-from cfg import CFG
+from cfg import CFG, ccp_reachable
 from flow import Flow, call_sites, arg_local, last_seg
 from byteclass import predicate_sets, outcome_partition, classify, arg_subject, ret_shape, fmt_set, FULL, shape
 from sym import PathSym, walk, strip, enum_paths, prefix_to
@@ -141,7 +141,22 @@ def rule_string(ctx, f):
     arms = {a[0]: a[1] for a in et["arms"]}
     ents = dict(arms)
     ents["default"] = et["otherwise"]
-    regs = exclusive_regions(cfg, ents)
+    # the scanner may be a loop (an arm that has nothing to report says `continue`) or call itself: either way "go on with the next character"
+    heads = {h for h, body_ in cfg.loops().items() if ei in body_}
+    regs = exclusive_regions(cfg, ents, avoid=heads)
+
+    yields = {i_ for i_, j_, s_ in F.stmts(b) if s_[0] == "assign" and s_[1] == [0]}
+
+    def goes_on(reg):
+        if any(last_seg(F.callee_name(t)) == "next_lexeme" for r, t in region_calls(b, reg)):
+            return True
+        # back to the head of the scanner's loop without producing a result on the way
+        for r in reg:
+            if r in yields:
+                continue
+            if (cfg.reachable_from(r, avoid=yields | {ei}) | {r}) & heads or any(x in heads for x in cfg.succ[r]):
+                return True
+        return False
 
     def arm_value(v):
         tgt = arms[v]
@@ -161,7 +176,7 @@ def rule_string(ctx, f):
             names = [last_seg(F.callee_name(t)) for r, t in region_calls(b, reg)]
             somes = [s for r in reg for s in b["blocks"][r]["stmts"] if s[0] == "assign" and s[2][0] == "aggregate" and s[2][1].get("variant") == "Some"
                      and F.const_int(s[2][2][0]) is not None]
-            ok = "next_lexeme" in names and "peek_byte" in names and not somes
+            ok = goes_on(reg) and "peek_byte" in names and not somes
             # the byte that is looked at (and skipped) after a CR is the LF of a CRLF pair
             seen_consts = set()
             for r in reg:
@@ -189,16 +204,17 @@ def rule_string(ctx, f):
     ctx.check([0, 3] in ranges, "C03-TABLE-str", "next_lexeme#octal-arity", "octal escapes read %s digits (spec: up to 3)" % ranges, et["span"], detail="for _ in 0..3")
     rng = [sorted(set(raw) - {0, 1}) for ty, raw, refs in raw_consts(b) if "RangeInclusive<u8>" in ty]
     ctx.check([48, 55] in incl or [48, 55] in rng, "C03-TABLE-str", "next_lexeme#octal-digits", "octal digit range %s (spec '0'..='7')" % (incl or rng), et["span"], detail="digits '0'..='7'")
-    rec = [t for r, t in region_calls(b, dreg) if last_seg(F.callee_name(t)) == "next_lexeme"]
-    ctx.check(bool(rec), "C03-TABLE-str", "next_lexeme#unknown-escape",
+    # (in the loop form the octal arm holds a loop of its own: "go on" is an edge to the head of the SCANNER's loop)
+    ctx.check(goes_on(dreg), "C03-TABLE-str", "next_lexeme#unknown-escape",
               "a backslash before a character that starts no escape yields a byte (NUL) instead of being ignored", et["span"],
               detail="zero octal digits -> the backslash is ignored")
     # outer switch: ( nests, ) un-nests / ends, CR normalised
     oi, ot = outer[0]
     oarms = {a[0]: a[1] for a in ot["arms"]}
     ok_cr = False
+    oheads = {h for h, body_ in cfg.loops().items() if oi in body_}
     if 13 in oarms:
-        oregs = exclusive_regions(cfg, dict(oarms, **{"default": ot["otherwise"]}))
+        oregs = exclusive_regions(cfg, dict(oarms, **{"default": ot["otherwise"]}), avoid=oheads)
         reg = oregs[13] | {oarms[13]}
         somes = [F.const_int(s[2][2][0]) for r in reg for s in b["blocks"][r]["stmts"] if s[0] == "assign" and s[2][0] == "aggregate" and s[2][1].get("variant") == "Some"]
         names = [last_seg(F.callee_name(t)) for r, t in region_calls(b, reg)]
@@ -206,6 +222,22 @@ def rule_string(ctx, f):
     ctx.check(ok_cr, "C03-TABLE-str", "next_lexeme#raw-eol", "an unescaped CR / CRLF inside a literal string is not read as a single LF (7.3.4.2)", ot["span"],
               detail="raw CR or CRLF -> LF")
     ctx.check(40 in oarms and 41 in oarms, "C03-TABLE-str", "next_lexeme#parens", "balanced parentheses are not tracked", ot["span"], detail="( and ) nest")
+    if 40 in oarms and 41 in oarms:
+        # `(` adds one level; `)` takes one away and THEN asks whether the string is over (the test sees the level after the decrement); the
+        # string ends (None) on the negative side, the parenthesis is data on the other
+        oregs = exclusive_regions(cfg, dict(oarms, **{"default": ot["otherwise"]}), avoid=oheads)
+        def steps(reg, op):
+            return [r for r in sorted(reg) for s_ in b["blocks"][r]["stmts"] if s_[0] == "assign" and s_[2][0] == "binop" and s_[2][1].startswith(op) and F.const_int(s_[2][3]) == 1]
+        opens = steps(oregs[40] | {oarms[40]}, "Add")
+        reg41 = oregs[41] | {oarms[41]}
+        decs = steps(reg41, "Sub")
+        tests = [r for r in sorted(reg41) for s_ in b["blocks"][r]["stmts"] if s_[0] == "assign" and s_[2][0] == "binop" and s_[2][1] in ("Lt", "Ge", "Le", "Gt") and
+                 0 in (F.const_int(s_[2][2]), F.const_int(s_[2][3]))]
+        nones = [r for r in sorted(reg41) for s_ in b["blocks"][r]["stmts"] if s_[0] == "assign" and s_[2][0] == "aggregate" and s_[2][1].get("variant") == "None"]
+        okn = len(opens) == 1 and len(decs) == 1 and len(tests) == 1 and cfg.dominates(decs[0], tests[0]) and bool(nones) and all(cfg.dominates(tests[0], n_) for n_ in nones)
+        ctx.check(okn, "C03-TABLE-str", "next_lexeme#paren-depth", "the nesting level of a literal string is not (`(`: +1; `)`: -1, then `< 0` ends the string): increments %d, decrements %d, "
+                  "tests %d, decrement before the test: %s - the closing parenthesis is taken for data, or an inner one ends the string"
+                  % (len(opens), len(decs), len(tests), bool(decs and tests and cfg.dominates(decs[0], tests[0]))), ot["span"], detail="nested -= 1; if nested < 0 { end }")
 
 
 def rule_hexstring(ctx, f):
@@ -252,6 +284,30 @@ def rule_hexstring(ctx, f):
                 end |= set(S)
             elif sh == "Err":
                 err |= set(S)
+        # the digit test may sit in a closure / private helper that maps a character to Some(value) (`hex_value(c1)`): the characters it accepts
+        # are digits; what the caller does with the others (`>`, error) is read off the caller as before
+        hfl = Flow(hb)
+        for ci, ct in F.calls(hb):
+            al = None
+            cbody = None
+            if last_seg(ct.get("callee") or "") in ("call", "call_mut", "call_once") and len(ct["args"]) == 2:
+                rb_ = f.bodies.get(ct.get("resolved") or "")
+                if rb_ is not None and rb_["kind"] == "Closure":
+                    cbody, subj_n = rb_, 2
+                for a_ in hfl.origins(arg_local(ct, 0)) if cbody is None and arg_local(ct, 0) is not None else []:
+                    if a_[0] == "agg" and a_[1].get("k") == "closure":
+                        cbody, subj_n = f.body(a_[1]["closure"]), 2
+                al = arg_local(ct, 1)
+            elif ct.get("resolved_local") and f.bodies.get(ct.get("resolved") or "") is not None and not f.bodies[ct["resolved"]].get("pub") and len(ct["args"]) == 1 and \
+                    ct["arg_tys"][0]["s"] == "u8":
+                cbody, subj_n = f.bodies[ct["resolved"]], 1
+                al = arg_local(ct, 0)
+            if cbody is None or al is None or not any(a_[0] == "call" and a_[2] == bi for a_ in hfl.origins(al)):
+                continue
+            part = outcome_partition(cbody, arg_subject(subj_n), ret_shape)
+            for sh_, S_ in part.items():
+                if str(sh_).startswith("Some"):
+                    digit |= set(S_)
         if k == 0:
             ctx.check(end == {62}, "C03-TABLE-hex", "next_hex_byte#end", "a hex string ends at %s" % fmt_set(end), hb["span"], detail="'>' ends the string")
             ctx.check(digit - {62} == want or (digit | end) >= want and not (err & want), "C03-TABLE-hex", "next_hex_byte#digits-1",
@@ -339,6 +395,38 @@ def rule_names_numbers(ctx, f):
     need = set(SPEC["keywords"]) | {"<<", ">>", "[", "]", "(", "<", "/"}
     miss = need - kws
     ctx.check(not miss, "C03-TABLE-tok", "parser#keywords", "keywords / delimiters no longer recognised by the object parser: %s" % sorted(miss), detail="%d keywords" % len(need))
+    # ... and each of the three value keywords denotes its value: true -> Boolean(true), false -> Boolean(false), null -> Null
+    pb = f.body("parser::_parse_with_lexer_ctx")
+    if pb is None:
+        ctx.lost("C03-TABLE-tok", "parser::_parse_with_lexer_ctx")
+    else:
+        pcfg = CFG(pb)
+        eqs = {}
+        for bi, t in F.calls(pb):
+            if last_seg(F.callee_name(t)) == "equals" and t.get("dest") and t.get("target") is not None:
+                for a in t["args"]:
+                    c = F.const_bytes(a) or F.const_str(a)
+                    if c in ("true", "false", "null"):
+                        eqs[c] = (bi, t)
+        for kw, want in (("true", ("Boolean", 1)), ("false", ("Boolean", 0)), ("null", ("Null", None))):
+            if kw not in eqs:
+                ctx.bad("C03-TABLE-tok", "parser#value-of-" + kw, "no test for the keyword `%s` in the object parser" % kw, pb["span"])
+                continue
+            bi, t = eqs[kw]
+            yes = ccp_reachable(pb, t["target"], init={t["dest"][0]: 1}, avoid={x[0] for k2, x in eqs.items() if k2 != kw})
+            no = ccp_reachable(pb, t["target"], init={t["dest"][0]: 0})
+            built = set()
+            for r in yes - no:
+                for s_ in pb["blocks"][r]["stmts"]:
+                    if s_[0] == "assign" and s_[2][0] == "aggregate" and s_[2][1].get("adt") == "primitive::Primitive":
+                        v = s_[2][1].get("variant")
+                        arg = None
+                        if v == "Boolean" and s_[2][2]:
+                            c0 = s_[2][2][0]
+                            arg = int(c0[1].get("bool")) if c0[0] == "const" and isinstance(c0[1], dict) and "bool" in c0[1] else "?"
+                        built.add((v, arg))
+            ctx.check(built == {want}, "C03-TABLE-tok", "parser#value-of-" + kw, "the keyword `%s` is read as %s" % (kw, sorted(map(str, built)) or "nothing"), t["span"],
+                      detail="`%s` -> %s" % (kw, want[0] + ("(%s)" % bool(want[1]) if want[1] is not None else "")))
     # stream EOL
     sb = None
     for x in f.bodies.values():
@@ -502,6 +590,15 @@ def rule_eof_token(ctx, f, rule="C03-G4"):
             ctx.check(not handed_on, rule, "%s#loop-advance@%d" % (b["id"].split("::")[-1], k), "the end of the buffer inside a token is returned as an error (`?` on the bounded "
                       "advance in a scanning loop): a name or number that is the last thing in the buffer - the last member of an object stream, `parse(b\"/Name\")` - cannot be read",
                       t["span"], detail="Err(_) => break")
+        # a token ends at white-space AND at a delimiter: every scanning loop tests both classes (`/A/B`, `<</K[1]>>` need no separator)
+        for h, body in loops.items():
+            if not any(bi in body for bi, t in adv):
+                continue
+            tests = {last_seg(F.callee_name(tt)) for x, tt in F.calls(b) if x in body}
+            both = ("is_whitespace" in tests and "is_delimiter" in tests) or "is_regular" in tests
+            ctx.check(both, rule, "%s#loop-classes@%d" % (b["id"].split("::")[-1], sorted(loops).index(h)), "a token-scanning loop of the lexer stops at %s only: a name or number runs "
+                      "on through the other class, so tokens written without a separator fuse" % sorted(tests & {"is_whitespace", "is_delimiter"}),
+                      b["blocks"][h]["term"].get("span", b["span"]), detail="while !is_whitespace(pos) && !is_delimiter(pos)")
     ctx.floor(rule, n, 1, "bounded advances inside the token-scanning loops of the lexer")
 
 
@@ -584,6 +681,20 @@ def rule_consumption(ctx, f):
         ctx.check(ok, "C03-G3", "_parse_with_lexer_ctx#advance-%s" % ("hex" if go and "Hex" in go[0][1] else "str"),
                   "the lexer is not advanced by exactly the scanner's offset (next object starts at the wrong byte)", t["span"], detail="offset_pos(scanner.get_offset())")
     ctx.check(kinds == {"Hex", "Str"}, "C03-G3", "_parse_with_lexer_ctx#both-scanners", "scanner kinds: %s" % sorted(kinds), detail="both string kinds")
+    # the scanner works on what follows the opening delimiter: its buffer is the lexer's remaining slice taken AFTER the first lexeme was read
+    # (the offset it reports is added to that position)
+    cfg = CFG(p)
+    nexts = sorted(bi for bi, t in F.calls(p) if last_seg(F.callee_name(t)) == "next" and "Lexer" in F.callee_name(t))
+    news = [(bi, t) for bi, t in F.calls(p) if last_seg(F.callee_name(t)) == "new" and "StringLexer" in F.callee_name(t)]
+    ctx.floor("C03-G3", len(news), 2, "string scanners created in the object parser")
+    for bi, t in news:
+        l = arg_local(t, 0)
+        src = [a[2] for a in fl.origins(l, passthrough=()) if a[0] == "call" and last_seg(a[1]) == "get_remaining_slice"] if l is not None else []
+        first = [n_ for n_ in nexts if all(cfg.dominates(n_, m_) or n_ == m_ for m_ in nexts if cfg.dominates(m_, bi) or m_ == n_)]
+        ok = len(src) == 1 and bool(nexts) and any(cfg.dominates(n_, src[0]) for n_ in nexts)
+        ctx.check(ok, "C03-G3", "_parse_with_lexer_ctx#scanner-buffer-%s" % ("hex" if "Hex" in F.callee_name(t) else "str"), "the string scanner is not created on the lexer's "
+                  "remaining slice taken after the opening delimiter was read (sources: %d): it starts at the delimiter itself, nesting and the reported offset are off"
+                  % len(src), t["span"], detail="Scanner::new(lexer.get_remaining_slice()) after lexer.next()")
 
 
 def run(ctx):
